@@ -2,6 +2,7 @@
 #define MAIN_H
 
 #include <stdio.h>
+#include <stdlib.h>
 #include <string.h>
 #include <assert.h>
 #include "utf8_decode.h"
@@ -41,74 +42,50 @@ sanitize (const char *str, size_t length)
 }
 
 
+/*
+ * sanitize_utf8: returns a printable copy of text: ASCII control characters
+ * are shown as 0xNN, every other byte is copied as it is (so well-formed
+ * UTF-8 text without control characters is returned unchanged).  The copy
+ * lives in a buffer that is reused by the next call.
+ */
+static char *sanitized = NULL;      /* reused by every call of sanitize_utf8 */
+static size_t sanitized_size = 0;   /* allocated size of it */
+
 const char *
 sanitize_utf8 (const char *text, size_t length)
 {
-#define TEXT_SIZE 2048
-
-    int c1 = 0, c2 = 0; /* characters */
-    int p1 = 0, p2 = 0; /* byte position of characters */
-    int pos = 0;        /* position in sanitized array */
-    static char sanitized[TEXT_SIZE];
-    char buf[32];
+    static const char hexdigits[] = "0123456789abcdef";
+    size_t need = 4 * length + 1;   /* a byte takes at most 4 characters */
+    size_t pos = 0;
 
 
 /* html data contain some unneccessary characters:
  * 1) such characters as '&lrm;' and '&rlm;' broke encoding to punycode;
  * 2) we don't want any '\r', '\n' characters in the output CSV file.
  */
-#define SKIP(c, p, l) do { \
-    if ((c) < 0x0020 || (c) == 0x007f) { \
-        sprintf (buf, "0x%02x", c); \
-        size_t x = strlen (buf); \
-        memcpy (sanitized + pos, buf, x); \
-        pos += x; \
-    } \
-    else { \
-        assert (pos < TEXT_SIZE); \
-        memcpy (sanitized + pos, text + p, l); \
-        pos += l; \
-    } \
-} while (0)
+    if (need > sanitized_size) {
+        char *bigger = realloc (sanitized, need);
 
+        if (bigger == NULL)
+            return "";
 
-    utf8_decode_init ((char *) text, length);
-    /* look forward for characters and their lengths.
-     * Such way (may be ugly) helps us avoid creation of utf8_encode() func.
-     */
-    for (;;) {
-        c1 = utf8_decode_next ();
-        p1 = utf8_decode_at_byte ();
-
-        if (c1 < 0) {
-            if (c2 > 0) { /* it is possible that we miss something */
-                /* at p2, length: len - p2 */
-                SKIP(c2, p2, length - p2);
-            }
-            break;
-        }
-
-        if (p2 > 0) { /* previous character */
-            /* at p2, length: p1 - p2 */
-            SKIP(c2, p2, p1 - p2);
-        }
-
-        /* look forward */
-        c2 = utf8_decode_next ();
-        p2 = utf8_decode_at_byte ();
-
-        if (c2 > 0) {
-            /* at p1, length: p2 - p1 */
-            SKIP(c1, p1, p2 - p1);
-        }
-        else {
-            /* it possible that we read everything; does not work always. */
-            /* at p1, length: len - p1 */
-            SKIP(c1, p1, length - p1);
-        }
+        sanitized = bigger;
+        sanitized_size = need;
     }
 
-    assert (c1 == UTF8_END);
+    for (size_t i = 0; i < length; i++) {
+        unsigned char c = (unsigned char) text[i];
+
+        if (c < 0x20 || c == 0x7f) {
+            sanitized[pos++] = '0';
+            sanitized[pos++] = 'x';
+            sanitized[pos++] = hexdigits[c >> 4];
+            sanitized[pos++] = hexdigits[c & 0x0f];
+        }
+        else
+            sanitized[pos++] = (char) c;
+    }
+
     sanitized[pos] = '\0';
 
     return sanitized;
